@@ -69,10 +69,67 @@ def show(lst, sep):
     return sep.join(D.hx(x) for x in lst) if lst else "."
 
 
+def real_msg(index, n):
+    """deterministic content of the index-th message of a real-socket case"""
+    return bytes((index * 31 + j * 7 + (j >> 8)) % 251 for j in range(n))
+
+
+def classify_token(ex):
+    """a real OSError -> the abstract answer token it stands for (would-block / loss / other)"""
+    code = ex.errno if ex.errno is not None else -1
+    if code in D.WOULD:
+        return "wb:0"
+    if code in D.LOSS:
+        return "lost:%d" % code
+    return "fail:%d" % code
+
+
+class RealMixin:
+    """answers come from a real kernel object instead of a script; every answer is recorded as the token that a
+    scripted double would need to reproduce it"""
+
+    def attach(self, real, via_fd=False):
+        self.real, self.via_fd = real, via_fd
+        self.tokens_tx, self.tokens_rx = [], []
+
+    def do_send(self, data):
+        data = bytes(data)
+        try:
+            n = D.REAL_OS_WRITE(self.real.fileno(), data) if self.via_fd else self.real.send(data)
+        except OSError as ex:
+            self.tokens_tx.append(classify_token(ex))
+            self.send_log.append((data, ex))
+            raise
+        self.tokens_tx.append("a%d" % n)
+        self.sent += data[:n]
+        self.send_log.append((data, n))
+        return n
+
+    def do_recv(self, bs):
+        try:
+            chunk = D.REAL_OS_READ(self.real.fileno(), bs) if self.via_fd else self.real.recv(bs)
+        except OSError as ex:
+            self.tokens_rx.append(classify_token(ex))
+            self.recv_log.append(ex)
+            raise
+        self.tokens_rx.append("d" + D.hx(chunk))
+        self.recvd += chunk
+        self.recv_log.append(chunk)
+        return chunk
+
+
+class RealSock(RealMixin, D.Sock):
+    pass
+
+
+class RealFd(RealMixin, D.Script):
+    pass
+
+
 class Rig:
     """one transport of the given kind over a scripted double"""
 
-    def __init__(self, kind, wlog, bs):
+    def __init__(self, kind, wlog, bs, script=None):
         from ioflo.aio.tcp import clienting, serving
         from ioflo.aio.serial import serialing
         from ioflo.aio import wiring
@@ -86,17 +143,17 @@ class Rig:
         tls = kind in ("clientTls", "incomerTls")
         if kind in SERIAL:
             if kind == "device":
-                self.script = D.Script()
+                self.script = script or D.Script()
                 server = serialing.DeviceNb(port="/dev/null", bs=bs)
                 server.fd = D.FAKE_FD
             else:
-                self.script = D.FakeSerial()
+                self.script = script or D.FakeSerial()
                 server = serialing.SerialNb(port="/dev/null", bs=bs)
                 server.serial = self.script
             server.opened = True
             self.t = serialing.Driver(server=server)
         else:
-            self.script = D.Sock(tls=tls)
+            self.script = script or D.Sock(tls=tls)
             if kind == "incomer":
                 self.t = serving.Incomer(ha=("127.0.0.1", 5000), bs=bs, ca=("10.0.0.2", 4000), cs=self.script,
                                          wlog=self.wl, store=store)
@@ -234,8 +291,34 @@ class CHECK(core.Check):
             return "lost:%d" % rng.choice(D.LOSS)
         return "fail:%d" % rng.choice(D.OTHER)
 
+    def _real_case(self, rng):
+        """a schedule over a real socketpair: messages larger than the send buffer force partial sends and EAGAIN"""
+        ops = []
+        for _ in range(rng.choice([6, 10, 16])):
+            x = rng.random()
+            if x < 0.25:
+                ops.append(["txn", rng.choice([1, 100, 1500, 3000, 6000])])
+            elif x < 0.50:
+                ops.append(["stx"])
+            elif x < 0.65:
+                ops.append(["peerread", rng.choice([1, 500, 4096, 65536])])
+            elif x < 0.78:
+                ops.append(["peerwrite", rng.choice([1, 50, 700, 3000])])
+            elif x < 0.92:
+                ops.append(["srx" if rng.random() < 0.8 else "srx1"])
+            elif x < 0.96:
+                ops.append(["clr"])
+            else:
+                ops.append(["peerclose"])
+        ops += [["stx"], ["srx"]]
+        return {"real": 1, "kind": rng.choice(["incomer", "client", "device"]), "wlog": rng.randrange(2),
+                "bs": rng.choice([64, 1024]), "sndbuf": 2304, "ops": ops}
+
     def generate(self, rng, n, tier):
         for _ in range(n):
+            if rng.random() < 0.02:
+                yield self._real_case(rng)
+                continue
             kind = rng.choice(KINDS)
             bs = rng.choice([1, 4, 8, 16, 64])
             errs = rng.random() < 0.45         # loss / other errors allowed in this history?
@@ -277,6 +360,7 @@ class CHECK(core.Check):
 
     # ------------------------------------------------------------------ both sides
     def requests(self, case):
+        case = self.equiv(case)
         out = ["reset %s %d" % (case["kind"], 1 if case["wlog"] else 0)]
         for op in case["ops"]:
             if op[0] == "tx":
@@ -289,44 +373,161 @@ class CHECK(core.Check):
                 out.append(op[0])
         return out
 
+    class Runner:
+        """executes operations on a rig and renders the canonical line after each"""
+
+        def __init__(self, rig):
+            self.rig, self.wtx_off, self.wrx_off = rig, 0, 0
+
+        def run(self, op):
+            rig, sc = self.rig, self.rig.script
+            s0, r0, ns0, nr0 = len(sc.sent), len(sc.recvd), len(sc.send_log), len(sc.recv_log)
+            status = "ok"
+            try:
+                if op is not None:
+                    rig.do(op)
+            except OSError:
+                status = "raised"
+            except Exception as ex:       # not an error of the transport's contract: show its class
+                status = "ERR-" + type(ex).__name__
+            t = rig.t
+            cut = 0 if rig.kind in SERIAL else int(bool(t.cutoff))
+            dw = dwr = "."
+            if rig.wl is not None:
+                tx_buf, rx_buf = rig.wl.getTx() or b"", rig.wl.getRx() or b""
+                lens = [c for (_, c) in sc.send_log[ns0:] if isinstance(c, int) and c > 0]
+                recs = parse_wlog(tx_buf[self.wtx_off:], b"TX", lens)
+                dw = "MALFORMED:" + D.hx(tx_buf[self.wtx_off:]) if recs is None else show(recs, "|")
+                self.wtx_off = len(tx_buf)
+                lens = [len(c) for c in sc.recv_log[nr0:] if isinstance(c, bytes) and c]
+                recs = parse_wlog(rx_buf[self.wrx_off:], b"RX", lens)
+                dwr = "MALFORMED:" + D.hx(rx_buf[self.wrx_off:]) if recs is None else show(recs, "|")
+                self.wrx_off = len(rx_buf)
+            return "%s q=%s rx=%s cut=%d live=%d ds=%s dw=%s dr=%s dwr=%s" % (
+                status, show(list(t.txes), ","), D.hx(t.rxbs), cut, int(bool(rig.live())),
+                D.hx(sc.sent[s0:]), dw, D.hx(sc.recvd[r0:]), dwr)
+
+    def model_post(self, case, replies):
+        return replies + ["e2e ok"] if case.get("real") else replies
+
     def impl(self, case):
+        if case.get("real"):
+            return self._impl_real(case)
         rig = Rig(case["kind"], case["wlog"], case["bs"])
-        sc = rig.script
+        runner = self.Runner(rig)
         lines = ["ok"]
-        wtx_off = wrx_off = 0
-        ctx = D.patched_os(sc) if case["kind"] == "device" else None
+        ctx = D.patched_os(rig.script) if case["kind"] == "device" else None
         if ctx:
             ctx.__enter__()
         try:
             for op in case["ops"]:
-                s0, r0, ns0, nr0 = len(sc.sent), len(sc.recvd), len(sc.send_log), len(sc.recv_log)
-                status = "ok"
-                try:
-                    rig.do(op)
-                except OSError:
-                    status = "raised"
-                except Exception as ex:       # not an error of the transport's contract: show its class
-                    status = "ERR-" + type(ex).__name__
-                t = rig.t
-                cut = 0 if case["kind"] in SERIAL else int(bool(t.cutoff))
-                dw = dwr = "."
-                if rig.wl is not None:
-                    tx_buf, rx_buf = rig.wl.getTx() or b"", rig.wl.getRx() or b""
-                    lens = [c for (_, c) in sc.send_log[ns0:] if isinstance(c, int) and c > 0]
-                    recs = parse_wlog(tx_buf[wtx_off:], b"TX", lens)
-                    dw = "MALFORMED:" + D.hx(tx_buf[wtx_off:]) if recs is None else show(recs, "|")
-                    wtx_off = len(tx_buf)
-                    lens = [len(c) for c in sc.recv_log[nr0:] if isinstance(c, bytes) and c]
-                    recs = parse_wlog(rx_buf[wrx_off:], b"RX", lens)
-                    dwr = "MALFORMED:" + D.hx(rx_buf[wrx_off:]) if recs is None else show(recs, "|")
-                    wrx_off = len(rx_buf)
-                lines.append("%s q=%s rx=%s cut=%d live=%d ds=%s dw=%s dr=%s dwr=%s" % (
-                    status, show(list(t.txes), ","), D.hx(t.rxbs), cut, int(bool(rig.live())),
-                    D.hx(sc.sent[s0:]), dw, D.hx(sc.recvd[r0:]), dwr))
+                lines.append(runner.run(op))
         finally:
             if ctx:
                 ctx.__exit__(None, None, None)
         return lines
+
+    # ------------------------------------------------------------------ real kernel objects instead of scripts
+    _equiv = {}
+
+    def equiv(self, case):
+        """the scripted case that a real-socket case turned out to be (recorded while it ran)"""
+        if not case.get("real"):
+            return case
+        key = core.case_key(case)
+        if key not in self._equiv:
+            self._impl_real(case)
+        return self._equiv[key]
+
+    def _impl_real(self, case):
+        """The transport runs over one end of a real non-blocking socketpair with a small send buffer (or over its
+        file descriptor through os.write/os.read for the serial DeviceNb); the harness plays the peer on the other
+        end.  Every answer of the kernel is recorded as the token a scripted double needs to reproduce it, so the
+        run is also an ordinary scripted case (`equiv`) that the Lean model is asked to predict."""
+        import socket
+        kind = case["kind"]
+        a, b = socket.socketpair()
+        try:
+            for sk in (a, b):
+                sk.setblocking(False)
+                sk.setsockopt(socket.SOL_SOCKET, socket.SO_SNDBUF, case.get("sndbuf", 2304))
+            proxy = RealFd() if kind == "device" else RealSock()
+            proxy.attach(a, via_fd=(kind == "device"))
+            rig = Rig(kind, case["wlog"], case["bs"], script=proxy)
+            runner = self.Runner(rig)
+            lines, eops = ["ok"], []
+            queued, peer_rx, peer_tx, nmsg, nchunk = b"", b"", b"", 0, 0
+            ctx = D.patched_os(proxy) if kind == "device" else None
+            if ctx:
+                ctx.__enter__()
+            try:
+                for op in case["ops"]:
+                    name = op[0]
+                    if name == "txn":
+                        m = real_msg(nmsg, op[1])
+                        nmsg += 1
+                        queued += m
+                        eops.append(["tx", D.hx(m)])
+                        lines.append(runner.run(eops[-1]))
+                    elif name in ("stx", "stx1", "srx", "srx1", "clr"):
+                        nt, nr = len(proxy.tokens_tx), len(proxy.tokens_rx)
+                        line = runner.run([name])
+                        for feed, toks in (("feedtx", proxy.tokens_tx[nt:]), ("feedrx", proxy.tokens_rx[nr:])):
+                            if toks:            # what the kernel answered during this call, fed to the script first
+                                eops.append([feed, list(toks)])
+                                lines.append(lines[-1] if len(lines) > 1 else None)
+                        eops.append([name])
+                        lines.append(line)
+                    elif name == "peerread":
+                        try:
+                            peer_rx += b.recv(op[1])
+                        except OSError:
+                            pass
+                    elif name == "peerwrite":
+                        m = real_msg(1000 + nchunk, op[1])
+                        nchunk += 1
+                        try:
+                            k = b.send(m)
+                            peer_tx += m[:k]
+                        except OSError:
+                            pass
+                    elif name == "peerclose":
+                        b.close()
+                    else:
+                        raise KeyError(name)
+            finally:
+                if ctx:
+                    ctx.__exit__(None, None, None)
+            # a feed line repeats the previous state with nothing moved
+            fixed = []
+            for ln, op in zip(lines[1:], eops):
+                if op[0] in ("feedtx", "feedrx"):
+                    prev = fixed[-1] if fixed else "ok q=. rx=- cut=0 live=1 ds=- dw=. dr=- dwr=."
+                    f = self._fields(prev)
+                    ln = "ok q=%s rx=%s cut=%s live=%s ds=- dw=. dr=- dwr=." % (f["q"], f["rx"], f["cut"], f["live"])
+                fixed.append(ln)
+            # end to end: what the peer got is what was queued, what the transport buffered is what the peer sent
+            try:
+                while b.fileno() >= 0:
+                    chunk = b.recv(65536)
+                    if not chunk:
+                        break
+                    peer_rx += chunk
+            except OSError:
+                pass
+            e2e = "e2e ok"
+            if peer_rx != queued[:len(peer_rx)]:
+                e2e = "e2e FAIL peer received bytes that are not a prefix of what was queued"
+            elif b.fileno() >= 0 and peer_rx != bytes(proxy.sent):
+                e2e = "e2e FAIL peer received %d bytes, socket accepted %d" % (len(peer_rx), len(proxy.sent))
+            elif bytes(proxy.recvd) != peer_tx[:len(proxy.recvd)]:
+                e2e = "e2e FAIL transport received bytes the peer did not send in that order"
+            self._equiv[core.case_key(case)] = {"kind": kind, "wlog": case["wlog"], "bs": case["bs"], "ops": eops}
+            return ["ok"] + fixed + [e2e]
+        finally:
+            a.close()
+            if b.fileno() >= 0:
+                b.close()
 
     # ------------------------------------------------------------------ property, stated on the implementation
     @staticmethod
@@ -352,6 +553,12 @@ class CHECK(core.Check):
         return True
 
     def oracle(self, case, out):
+        if case.get("real"):
+            if not out or not out[-1].startswith("e2e"):
+                return "real-socket adapter: %s" % out[-1:]
+            if out[-1] != "e2e ok":
+                return out[-1]
+            case, out = self.equiv(case), out[:-1]
         if len(out) != len(case["ops"]) + 1 or out[0] != "ok":
             return "implementation adapter produced %d lines for %d ops: %s" % (len(out), len(case["ops"]), out[:2])
         benign = self._benign(case)
@@ -402,6 +609,8 @@ class CHECK(core.Check):
         return None
 
     def nontrivial(self, case, out):
+        if case.get("real"):
+            case, out = self.equiv(case), out[:-1]
         moved = left = False
         for op, line in zip(case["ops"], out[1:]):
             if " ds=" not in line:
@@ -416,11 +625,14 @@ class CHECK(core.Check):
         return moved and left
 
     def bucket(self, case, out):
+        real = "real-" if case.get("real") else ""
+        if real:
+            case, out = self.equiv(case), out[:-1]
         toks = [t for op in case["ops"] if op[0] in ("feedtx", "feedrx") for t in op[1]]
         cls = "errors" if any(t.startswith(("lost", "fail")) for t in toks) else \
               "blocking" if any(t.startswith("wb") for t in toks) else "plain"
         raised = any(l.startswith("raised") for l in out)
-        return "%s/%s%s" % (case["kind"], cls, "/raised" if raised else "")
+        return "%s%s/%s%s" % (real, case["kind"], cls, "/raised" if raised else "")
 
     def shrink_candidates(self, case):
         ops = case["ops"]
@@ -428,6 +640,8 @@ class CHECK(core.Check):
             c = dict(case)
             c["ops"] = ops[:i] + ops[i + 1:]
             yield c
+        if case.get("real"):
+            return
         for i, op in enumerate(ops):
             if op[0] in ("feedtx", "feedrx") and len(op[1]) > 1:
                 for j in range(len(op[1])):
